@@ -237,6 +237,7 @@ func (mgr *GCMgr) gc(bkt *Bucket, startChunkID, endChunkID int, merge bool) {
 	}
 
 	dstchunk := &bkt.datas.chunks[gc.Dst]
+	verifPoint("cg.begin", gc.Dst)
 	err := dstchunk.beginGCWriting(gc.Begin)
 	if err != nil {
 		gc.Err = err
@@ -244,11 +245,13 @@ func (mgr *GCMgr) gc(bkt *Bucket, startChunkID, endChunkID int, merge bool) {
 	}
 	newPos.ChunkID = gc.Dst
 	defer func() {
+		verifPoint("cg.final", gc.Dst)
 		dstchunk.endGCWriting()
 		bkt.hints.trydump(gc.Dst, true)
 	}()
 
 	for gc.Src = gc.Begin; gc.Src <= gc.End; gc.Src++ {
+		verifPoint("cg.file", gc.Src)
 		if gc.CancelFlag {
 			logger.Infof("GC canceled: src %d dst %d", gc.Src, gc.Dst)
 			return
@@ -262,6 +265,7 @@ func (mgr *GCMgr) gc(bkt *Bucket, startChunkID, endChunkID int, merge bool) {
 		// reader must have a larger buffer
 		logger.Infof("begin GC bucket %d, file %d -> %d", bkt.ID, gc.Src, gc.Dst)
 		bkt.hints.ClearChunk(gc.Src)
+		verifPoint("cg.open", gc.Src)
 		if r, err = bkt.datas.GetStreamReader(gc.Src); err != nil {
 			gc.Err = err
 			logger.Errorf("gc failed: %s", err.Error())
@@ -269,6 +273,7 @@ func (mgr *GCMgr) gc(bkt *Bucket, startChunkID, endChunkID int, merge bool) {
 		}
 
 		for {
+			verifPoint("cg.next", gc.Src)
 			var sizeBroken uint32
 			rec, oldPos.Offset, sizeBroken, err = r.Next()
 			if err != nil {
@@ -283,6 +288,7 @@ func (mgr *GCMgr) gc(bkt *Bucket, startChunkID, endChunkID int, merge bool) {
 			var isNewest, isCoverdByCollision, isDeleted bool
 			meta := rec.Payload.Meta
 			ki := NewKeyInfoFromBytes(rec.Key, getKeyHash(rec.Key), false)
+			verifPoint("cg.check", ki.StringKey, oldPos)
 			treeMeta, treePos, found := bkt.htree.get(ki)
 			if found {
 				if oldPos == treePos { // easy
@@ -324,6 +330,7 @@ func (mgr *GCMgr) gc(bkt *Bucket, startChunkID, endChunkID int, merge bool) {
 			verifPoint("gc.checked", ki.StringKey, oldPos)
 
 			if recsize+dstchunk.writingHead > uint32(Conf.DataFileMax) {
+				verifPoint("cg.endw", gc.Dst)
 				dstchunk.endGCWriting()
 				bkt.hints.trydump(gc.Dst, true)
 
@@ -331,6 +338,7 @@ func (mgr *GCMgr) gc(bkt *Bucket, startChunkID, endChunkID int, merge bool) {
 				newPos.ChunkID = gc.Dst
 				logger.Infof("continue GC bucket %d, file %d -> %d", bkt.ID, gc.Src, gc.Dst)
 				dstchunk = &bkt.datas.chunks[gc.Dst]
+				verifPoint("cg.beginw", gc.Dst, gc.Src)
 				err = dstchunk.beginGCWriting(gc.Src)
 				if err != nil {
 					gc.Err = err
@@ -345,6 +353,7 @@ func (mgr *GCMgr) gc(bkt *Bucket, startChunkID, endChunkID int, merge bool) {
 			// logger.Infof("%s %v %v", ki.StringKey, newPos, meta)
 			verifPoint("gc.copied", ki.StringKey, newPos)
 			if found {
+				verifPoint("cg.move", ki.StringKey, oldPos, newPos)
 				if isCoverdByCollision {
 					mgr.UpdateCollision(bkt, ki, oldPos, newPos, rec)
 				}
@@ -358,6 +367,7 @@ func (mgr *GCMgr) gc(bkt *Bucket, startChunkID, endChunkID int, merge bool) {
 		}
 
 		if gc.Src != gc.Dst {
+			verifPoint("cg.clearmem", gc.Src)
 			bkt.datas.chunks[gc.Src].Clear()
 		} else if err = dstchunk.dropStaleTail(); err != nil {
 			gc.Err = err
@@ -372,5 +382,6 @@ func (mgr *GCMgr) gc(bkt *Bucket, startChunkID, endChunkID int, merge bool) {
 		logger.Infof("end GC file %#v", fileState)
 		gc.add(&fileState)
 	}
+	verifPoint("cg.file", gc.Src)
 	logger.Infof("end GC all %#v", gc)
 }
